@@ -616,6 +616,9 @@ class Exec(BufMixin):
 
     def do_binop(self, opn, a, b, st, fr, node):
         if isinstance(a, V.Opaque) or isinstance(b, V.Opaque):
+            if opn in ('Div', 'FloorDiv', 'Mod') and not isinstance(b, V.Opaque) and is_num(b):
+                # the divisor is modelled even if the dividend is not: division by zero is still an obligation
+                self.safety(st, fr, 'div_nonzero', compare('NotEq', b, 0), node)
             return V.Opaque()
         if self.is_arr(a) or self.is_arr(b):
             def ob(kind, cond):
